@@ -142,10 +142,15 @@ def run(ctx):
     ok = False
     for wl in [s_ for s_ in d.node.body if isinstance(s_, ast.While)]:
         for st_ in wl.body:
-            if isinstance(st_, ast.Assign) and isinstance(st_.value, ast.Call) and isinstance(st_.value.func, ast.Attribute) and st_.value.func.attr in ("popitem", "pop") \
-                    and gd.nodes_of(st_) and A.norm(q.expand_at(gd, gd.nodes_of(st_)[0], st_.value.func.value)) == f"self.{SPANS}":
+            val_ = st_.value if isinstance(st_, ast.Assign) else None
+            picked = None  # `popitem()[1]` picks the span out of the (key, span) pair
+            if isinstance(val_, ast.Subscript) and isinstance(val_.value, ast.Call) and A.norm(val_.slice) == "1":
+                picked, val_ = 1, val_.value
+            if isinstance(st_, ast.Assign) and isinstance(val_, ast.Call) and isinstance(val_.func, ast.Attribute) and val_.func.attr in ("popitem", "pop") \
+                    and gd.nodes_of(st_) and A.norm(q.expand_at(gd, gd.nodes_of(st_)[0], val_.func.value)) == f"self.{SPANS}":
                 tg = st_.targets[0]
-                span_var = tg.elts[1].id if isinstance(tg, ast.Tuple) and len(tg.elts) == 2 and isinstance(tg.elts[1], ast.Name) else (tg.id if isinstance(tg, ast.Name) else None)
+                span_var = tg.elts[1].id if isinstance(tg, ast.Tuple) and len(tg.elts) == 2 and isinstance(tg.elts[1], ast.Name) and picked is None else \
+                    (tg.id if isinstance(tg, ast.Name) and (picked == 1 or val_.func.attr == "pop") else None)
                 if span_var and sum(1 for x in wl.body if A.norm(x) == f"{span_var}.end()") == 1:
                     ok = True
     ctx.ob("C42.D3-span-ended-by-key", cname(d, None, "abort / halt end and remove every open span"), ok, "" if ok else "spans stay in the container after being ended (ended twice later)", where=where(d, d.node))
